@@ -745,6 +745,8 @@ class Interp:
                 return obj.cls
             found = obj.cls.lookup(attr)
             if found is None:
+                if getattr(obj, "partial", False):
+                    raise Undecided(f"the abstract model of {obj.cls.name} does not provide attribute {attr!r}")
                 raise RaiseEx("AttributeError", f"{obj.cls.name}.{attr}")
             kind, cls, item = found
             if kind == "prop":
@@ -1076,6 +1078,7 @@ class Interp:
         if init is not None and init[0] == "method":
             self.call_function(FuncRef(init[1].module, init[2], f"{init[1].module}:{init[1].name}.__init__", init[1]),
                                [o] + list(args), kwargs)
+        o.partial = False
         return o
 
     def bind_args(self, fn_node, args, kwargs, module):
